@@ -42,6 +42,32 @@ X64 = {
     "icall": dict(b="ffd0", kind="icall", asm="callq *%rax"),
     "ud2": dict(b="0f0b", kind="halt", asm="ud2"),
     "hlt": dict(b="f4", kind="halt", asm="hlt"),
+    # explicit ELF relocation variants (ELF targets only); the attribute set
+    # is the variant's name spelled out
+    "v_gotpcrel": dict(b="488b0500000000", kind="ord", sym=(3, 4),
+                       asm="movq {t}@GOTPCREL(%rip), %rax", patch=False,
+                       attrs=("GOT", "PCREL"), elf=True),
+    "v_gottpoff": dict(b="488b0500000000", kind="ord", sym=(3, 4),
+                       asm="movq {t}@GOTTPOFF(%rip), %rax", patch=False,
+                       attrs=("GOT", "TPOFF"), elf=True),
+    "v_gotntpoff": dict(b="488b0500000000", kind="ord", sym=(3, 4),
+                        asm="movq {t}@GOTNTPOFF(%rip), %rax", patch=False,
+                        attrs=("GOT", "NTPOFF"), elf=True),
+    "v_tpoff": dict(b="488b042500000000", kind="ord", sym=(4, 4),
+                    asm="movq {t}@TPOFF, %rax", patch=False,
+                    attrs=("TPOFF",), elf=True),
+    "v_ntpoff": dict(b="488b042500000000", kind="ord", sym=(4, 4),
+                     asm="movq {t}@NTPOFF, %rax", patch=False,
+                     attrs=("NTPOFF",), elf=True),
+    "v_dtpoff": dict(b="488b8800000000", kind="ord", sym=(3, 4),
+                     asm="movq {t}@DTPOFF(%rax), %rcx", patch=False,
+                     attrs=("DTPOFF",), elf=True),
+    "v_tlsgd": dict(b="488d3d00000000", kind="ord", sym=(3, 4),
+                    asm="leaq {t}@TLSGD(%rip), %rdi", patch=False,
+                    attrs=("TLSGD",), elf=True),
+    "v_got": dict(b="488b0500000000", kind="ord", sym=(3, 4),
+                  asm="movq {t}@GOT(%rip), %rax", patch=False,
+                  attrs=("GOT",), elf=True),
     # system call: a Syscall edge to an unknown target plus a fallthrough
     "syscall": dict(b="0f05", kind="syscall", asm="syscall", patch=False),
     # symbolic memory operand FOLLOWED by an immediate: the fixup is not the
